@@ -92,10 +92,12 @@ def floors(tier):
     if tier == 'quick':
         return {'reader_checked': 2400, 'perm_checked': 550, 'superset_checked': 1800, 'cast_cells_checked': 12000,
                 'missing_checked': 2500, 'dupes_checked': 250, 'driver_checked': 3500, 'slicer_checked': 1200,
-                'take_checked': 6000, 'view_checked': 9000, 'view_items_checked': 1400}
+                'take_checked': 6000, 'view_checked': 9000, 'view_items_checked': 1400, 'negative_index_lists': 500,
+                'out_of_range_checked': 250}
     return {'reader_checked': 70000, 'perm_checked': 6000, 'superset_checked': 62000, 'cast_cells_checked': 450000,
             'missing_checked': 21000, 'dupes_checked': 2200, 'driver_checked': 65000, 'slicer_checked': 29000,
-            'take_checked': 75000, 'view_checked': 90000, 'view_items_checked': 18000}
+            'take_checked': 75000, 'view_checked': 90000, 'view_items_checked': 18000, 'negative_index_lists': 20000,
+            'out_of_range_checked': 1000}
 
 
 # ---------------------------------------------------------------- value coding (witnesses are JSON)
@@ -660,6 +662,32 @@ def index_lists(extent, longest):
         yield from (list(c) for c in itertools.product(range(extent), repeat=size))
 
 
+def signed_index_lists(extent, longest):
+    """Index lists with at least one negative position (counted from the end, as for any python / numpy matrix)."""
+    for size in range(1, longest + 1):
+        for combo in itertools.product(range(-extent, extent), repeat=size):
+            if min(combo) < 0:
+                yield list(combo)
+
+
+def check_out_of_range(ctx, lib, case):
+    """A position outside the axis is an error in plain matrix semantics - never another row / column."""
+    ctx.count('evaluations')
+    ctx.count('out_of_range_checked')
+    rows = [[dec(v) for v in row] for row in case['rows']]
+    ncols = len(rows[0])
+    names = [f'c{i}' for i in range(ncols)] if case['impl'] != 'frame-idx' else [(i + 1) % ncols for i in range(ncols)]
+    axis, indices = case['ops'][0]
+    ctx.shape(('out-of-range', len(rows), ncols, case['impl'], axis, tuple(indices)))
+    try:
+        table = apply_ops(lib.tabular(case['impl'], rows, names), [(axis, list(indices))])
+        seen = lists(table.to_rows())
+    except Exception:  # pylint: disable=broad-except
+        return
+    ctx.violation(f'tabular-{case["impl"].split("-")[0]}-take_{axis}-out-of-range-accepted',
+                  f'{case["impl"]} of {rows}: take_{axis}({indices}) with a position outside the axis returned {seen}', case)
+
+
 # ---------------------------------------------------------------- workload
 DIRECTED = {
     'kind': 'reader', 'q': [['a', 'int', None], ['b', 'int', None]], 'entry': [['b', 'str'], ['a', 'int']],
@@ -713,6 +741,17 @@ def run(ctx):
                 index += 1
                 if ctx.mine(index):
                     check_tabular(ctx, lib, {'kind': 'tabular', 'rows': rows, 'impl': impl, 'ops': [[axis, indices]]})
+            for indices in signed_index_lists(extent, ctx.pick(2, 3)):
+                index += 1
+                if ctx.mine(index):
+                    ctx.count('negative_index_lists')
+                    check_tabular(ctx, lib, {'kind': 'tabular', 'rows': rows, 'impl': impl, 'ops': [[axis, indices]]})
+            for outside in (extent, extent + 3, -extent - 1, -extent - 4):
+                for position in range(3):
+                    index += 1
+                    if ctx.mine(index):
+                        indices = [i % extent for i in range(position)] + [outside] + [0] * (2 - position)
+                        check_out_of_range(ctx, lib, {'kind': 'out-of-range', 'rows': rows, 'impl': impl, 'ops': [[axis, indices]]})
     for _ in range(ctx.pick(300, 3000)):
         nrows, ncols = rng.randint(1, ctx.pick(4, 6)), rng.randint(1, ctx.pick(4, 6))
         ops = []
@@ -723,6 +762,8 @@ def run(ctx):
             if not extent:
                 break
             indices = [rng.randrange(extent) for _ in range(rng.choice([0, 1, 2, 3, 5, 8]))]
+            if rng.random() < 0.3:  # the same positions counted from the end
+                indices = [i - extent if rng.random() < 0.5 else i for i in indices]
             ops.append([axis, indices])
             if axis == 'rows':
                 rcount = len(indices)
@@ -735,7 +776,9 @@ def run(ctx):
 
 def replay(ctx, witness):
     lib = Lib()
-    if witness['kind'] == 'reader':
+    if witness['kind'] == 'out-of-range':
+        check_out_of_range(ctx, lib, witness)
+    elif witness['kind'] == 'reader':
         check_reader(ctx, lib, witness)
     elif witness['kind'] == 'slicer':
         check_slicer(ctx, lib, witness)
